@@ -120,8 +120,11 @@ def check(ctx):
     jobs = []
     progs = []
     f1 = progsets.stmt_funcs(1 if quick else 2, styles=("kr", "one"))
+    shape_of = {}          # function name -> "shape / rendering" (identity of a finding must not depend on how functions are packed)
     for pr in progsets.pack_funcs(f1, 10):
         progs.append((pr[0], pr[1], "C"))
+        for fname, shape, style in pr[2]["funcs"]:
+            shape_of[fname] = "%s / %s" % (shape, style)
     for lang in ("C", "CPP"):
         for pr in progsets.units(lang):
             if pr[0] == "decl:intspell" and lang == "CPP":
@@ -166,11 +169,50 @@ def check(ctx):
                 else:
                     w["program"] = res["prog"].split("@")[0]
                     w["_layout"] = res["prog"].split("@")[1] if "@" in res["prog"] else ""
+                    if w["program"].startswith("stmts:") and "pass1" in files:
+                        # name the function that is not stable, by its shape (the identity of a finding must survive re-packing)
+                        def segs(t):
+                            out, cur = {}, None
+                            for ln in t.split(b"\n"):
+                                m = re.match(rb"^\s*void (t\d+)\(", ln)
+                                if m:
+                                    cur = m.group(1).decode(); out[cur] = []
+                                if cur:
+                                    out[cur].append(ln.rstrip())
+                            return out
+                        s1, s2 = segs(files["pass1"]), segs(files.get("pass2") or b"")
+                        fn = next((f for f in s1 if [l for l in s1[f] if l] != [l for l in s2.get(f, []) if l]), None)
+                        w["_pack"] = w["program"]
+                        if fn in shape_of:
+                            w["program"] = "stmt: " + shape_of[fn]
+                        elif fn is None:
+                            w["program"] = "stmt-pack-prelude (blank lines between the declarations in front of the functions)"
                 priv = {k: w.pop(k) for k in list(w) if k.startswith("_")}
                 files["detail.txt"] = repr(priv)
                 ctx.rep.violation(w, files, ["/verif/build/hooks/uncrustify", "-c", "config.cfg", "-l", files["lang"], "-f", "input"])
             if len(samples) < 4 and res["runs"] >= 3 and agg["jobs"] % 97 == 0:
                 samples.append({"program": res["prog"], "profile": res["profile"], "passes": 3})
+        # trees: every ordered pair of {a file that ends inside a disabled region, inside a directive, a plain file, a C++ file}
+        treefiles = [("off_tail", "c", b"int  a ;\n/* *INDENT-OFF* */\nint   tbl[] = { 1,\n     2 };\n"),
+                     ("pp_tail", "c", b"int  b ;\n#define LASTLINE  1"),
+                     ("plain", "c", b"int f( int x ){\n    if(x){ return 1 ; }\n    return 0;\n}\n"),
+                     ("asm_tail", "c", b"int  c ;\n#pragma asm\n  mov  x\n"),
+                     ("cls", "cpp", b"class  A{ public: int  x ; };\n")]
+        tjobs = []
+        for pn, p in sorted(P.items()):
+            if quick and pn not in ("defaults", "ben", "linux"):
+                continue
+            for i, a in enumerate(treefiles):
+                for k, b in enumerate(treefiles):
+                    if i != k:
+                        tjobs.append((pn, p, [a, b]))
+            tjobs.append((pn, p, treefiles))
+        for res in pool.imap(tree_job, tjobs, chunksize=2, deadline=ctx.deadline - 10):
+            agg["jobs"] += 1
+            for k in ("runs", "nontrivial", "refused", "timeouts"):
+                agg[k] += res[k]
+            for w, files in res["viol"]:
+                ctx.rep.violation(w, files, ["/verif/build/hooks/uncrustify", "-c", "config.cfg", "--replace", "--no-backup"] + files["batch"].split())
         if pool.cut:
             ctx.cut = True
     cov = {
@@ -178,7 +220,8 @@ def check(ctx):
         "evaluations": agg["runs"], "distinct_nontrivial": agg["nontrivial"],
         "rule": "history format;format;format on every (program, layout, profile): generated statement packs, declaration and "
                 "preprocessor units (C and C++), expression packs in 3-7 uniform original layouts x {defaults + 15 curated profiles}%s; "
-                "weak claim on every single deviation over the read set; non-trivial = first pass changes the input" % (
+                "weak claim on every single deviation over the read set; trees: every ordered pair (and the whole set) of five state-heavy files formatted by ONE "
+                "invocation, then re-formatted file by file; non-trivial = first pass changes the input" % (
                     "" if quick else "; plus every C/C++ corpus file <= 40 kB x the same profile set"),
         "samples": samples or [{"note": "none"}], "jobs": agg["jobs"], "refused_first_pass": agg["refused"], "timeouts": agg["timeouts"],
         "weak_claim_runs": agg["weak_runs"], "single_deviations_pruned_by_read_set": agg["pruned"], "profiles": sorted(P),
@@ -187,6 +230,42 @@ def check(ctx):
     return {"level": LEVEL, "coverage": cov,
             "assumptions": ["profile set = built-in defaults + /verif/profiles/*.cfg (curated from etc/*.cfg)",
                             "corpus pairs that are not fixed points are listed individually in known_findings.txt"]}
+
+
+def tree_job(j):
+    """A whole TREE formatted by ONE invocation (--replace --no-backup f1 f2 ...) passes --check file by file (one process
+    per file) and is unchanged by a second single-file pass.  j = (profile name, settings, [(name, lang-ext, bytes)...])"""
+    pname, settings, files = j
+    res = {"prog": "tree", "profile": pname, "runs": 0, "nontrivial": 0, "viol": [], "refused": 0, "timeouts": 0, "weak_runs": 0, "pruned": 0}
+    d = run.fresh_dir()
+    try:
+        cfg = configs.text(settings)
+        cfgp = run.cfg_path(cfg or None)
+        names = []
+        for n, ext, data in files:
+            fn = "%s.%s" % (re.sub(r"[^A-Za-z0-9]+", "_", n), ext)
+            open(os.path.join(d, fn), "wb").write(data)
+            names.append((fn, data))
+        r = run.run_argv([build.binary("hooks"), "-c", cfgp, "-q", "--replace", "--no-backup"] + [fn for fn, _ in names], cwd=d, timeout=60)
+        res["runs"] += 1
+        if r.timeout or r.rc != 0:
+            res["refused"] += 1
+            return res
+        for fn, data in names:
+            cur = open(os.path.join(d, fn), "rb").read()
+            if cur != data:
+                res["nontrivial"] += 1
+            alone = run.run_argv([build.binary("hooks"), "-c", cfgp, "-q", "-f", fn], cwd=d, timeout=60); res["runs"] += 1
+            if alone.rc == 0 and alone.out != cur:
+                # only a violation if the single-file run itself is stable (known single-file instabilities are judged elsewhere)
+                again = run.run_argv([build.binary("hooks"), "-c", cfgp, "-q", "-l", "C" if fn.endswith(".c") else "CPP"], stdin=alone.out, cwd=d, timeout=60)
+                res["runs"] += 1
+                if again.rc == 0 and again.out == alone.out:
+                    res["viol"].append(({"clause": "file-formatted-in-a-batch-is-not-a-fixed-point", "profile": pname, "file_class": fn.split("_")[0]},
+                                        {"input": data, "output": cur, "output_alone": alone.out, "config.cfg": cfg, "lang": "C", "batch": " ".join(n for n, _ in names)}))
+    finally:
+        shutil.rmtree(d, True)
+    return res
 
 
 def replay(path):
